@@ -576,11 +576,30 @@ func main() {
 	hx.Par(nRand, func(i int) {
 		rng := hx.RNG(run.Seed, "c10rand"+strconv.Itoa(i))
 		c := caseT{Domains: [][2]int{{rng.IntN(4), rng.IntN(4)}, {1 + rng.IntN(3), 1 + rng.IntN(3)}, {rng.IntN(3), 1}}}
+		maxEnd := 6
+		var pre []op
+		if i%8 == 3 {
+			// endpoint ids with two digits: a processor with 12 inputs and 11 outputs next to 11..13 external
+			// inputs and outputs (names such as i1 / i10 / p0i1 / p0i11 are prefixes of one another)
+			c.Domains = [][2]int{{12, 11}, {1, 1}}
+			maxEnd = 14
+			for k := 0; k < 11+rng.IntN(3); k++ {
+				pre = append(pre, op{K: "addin"})
+			}
+			for k := 0; k < 11+rng.IntN(3); k++ {
+				pre = append(pre, op{K: "addout"})
+			}
+			pre = append(pre, op{K: "addproc", I: 0})
+		}
 		m := &model{nm: append([][2]int(nil), c.Domains...), bonds: map[string]string{}}
+		for _, o := range pre {
+			m.apply(o)
+			c.Hist = append(c.Hist, o)
+		}
 		n := 10 + rng.IntN(50)
 		dels := 0
 		for s := 0; s < n; s++ {
-			cand := candidates(m, 6, true)
+			cand := candidates(m, maxEnd, true)
 			// bias: half of the time choose a deletion of a low index when bonds exist above it
 			var o op
 			if len(m.bonds) > 0 && rng.IntN(3) == 0 {
